@@ -6,7 +6,11 @@ use std::hash::{Hash, Hasher};
 use std::path::{Path, PathBuf};
 use std::time::{Duration, Instant};
 
-pub const VERIF_ROOT: &str = "/verif";
+/// Root under which evidence/, replays/ and known_findings.txt live.  `/verif` unless
+/// `VERIF_ROOT` is set (used only for background runs from a snapshot).
+pub fn verif_root() -> PathBuf {
+    std::env::var("VERIF_ROOT").map(PathBuf::from).unwrap_or_else(|_| PathBuf::from("/verif"))
+}
 
 #[derive(Clone, Copy, Debug, PartialEq, Eq)]
 pub enum Tier {
@@ -187,7 +191,7 @@ pub struct KnownFinding {
 ///   `known: property=<id> key=<key> <what fails>`
 ///   `fixed: property=<id> <commit> <what failed>`      (suppresses nothing)
 pub fn load_known_findings() -> Vec<KnownFinding> {
-    let path = Path::new(VERIF_ROOT).join("known_findings.txt");
+    let path = verif_root().join("known_findings.txt");
     let mut out = vec![];
     if let Ok(text) = std::fs::read_to_string(path) {
         for line in text.lines() {
@@ -234,7 +238,7 @@ pub fn finish(meta: &Meta, ctx: &Ctx, report: &Report) -> i32 {
             unknown.push(v.clone());
         }
     }
-    let replay_dir = Path::new(VERIF_ROOT).join("replays").join(meta.id);
+    let replay_dir = verif_root().join("replays").join(meta.id);
     let _ = std::fs::create_dir_all(&replay_dir);
     let mut lines = vec![];
     for (k, v) in &known_hit {
@@ -287,7 +291,7 @@ pub fn finish(meta: &Meta, ctx: &Ctx, report: &Report) -> i32 {
         "wall_s": wall,
         "violations": unknown.len(),
     });
-    let ev_dir = Path::new(VERIF_ROOT).join("evidence");
+    let ev_dir = verif_root().join("evidence");
     let _ = std::fs::create_dir_all(&ev_dir);
     let ev_path = ev_dir.join(format!("{}.json", meta.id));
     if ctx.replay.is_none() {
